@@ -1227,6 +1227,10 @@ func (mgr *Manager) UpdateTag(name string, operation UpdateTagOperation) error {
 				return fmt.Errorf("unknown tag %q", name)
 			}
 			if newTag != nil {
+				// converters can only be attached to tags with simple queries, see attachConverterToTag
+				if len(tag.converters) != 0 && (newTag.features.MainFeatures&query.FeatureFilterData != 0 || newTag.features.SubQueryFeatures&query.FeatureFilterData != 0 || len(newTag.features.MainTags) > 0 || len(newTag.features.SubQueryTags) > 0) {
+					return fmt.Errorf("query is too complex for a tag with attached converters")
+				}
 				// check if all referenced tags exist and none of them depends on this tag
 				seen := map[string]struct{}{}
 				for queue := newTag.referencedTags(); len(queue) != 0; queue = queue[1:] {
